@@ -35,6 +35,11 @@ func (c *C) summarise(direct func(fn *ssa.Function, in ssa.Instruction) []string
 					if mc, ok := ci.Common().Value.(*ssa.MakeClosure); ok {
 						calls[fn] = append(calls[fn], mc.Fn.(*ssa.Function))
 					}
+					// a call of a function-typed parameter runs whatever the call sites bind to it
+					if prm, ok := ci.Common().Value.(*ssa.Parameter); ok {
+						fab, _ := c.funcArgBindings()
+						calls[fn] = append(calls[fn], fab[prm]...)
+					}
 				}
 			}
 		}
@@ -169,6 +174,17 @@ var rR14order = RuleRef{Name: "R14o", Doc: "lock order: every acquisition (direc
 					} else if mc, ok := ci.Common().Value.(*ssa.MakeClosure); ok {
 						classes = acq[mc.Fn.(*ssa.Function)].Sorted()
 						what = "call closure"
+					} else if prm, ok := ci.Common().Value.(*ssa.Parameter); ok {
+						// a callback: whatever the call sites of this function hand in for that parameter
+						fab, _ := c.funcArgBindings()
+						all := Set{}
+						for _, g := range fab[prm] {
+							for k := range acq[g] {
+								all[k] = true
+							}
+						}
+						classes = all.Sorted()
+						what = "call of the function argument " + prm.Name()
 					}
 				}
 				bop := blockingOp(in)
